@@ -4,7 +4,7 @@
 From Coq Require Import NArith ZArith List Bool.
 Import ListNotations.
 Require Import UV.Gen.Consts UV.Mcount.Model UV.Mcount.Forest UV.Mcount.PlainStep UV.Mcount.PlainProofs
-  UV.Mcount.Codec UV.Mcount.PlainMore UV.Mcount.Overflow UV.Mcount.Embed UV.Mcount.EmbedOver UV.Mcount.EmbedMore UV.Mcount.Check UV.Mcount.Monotone UV.Mcount.Threads UV.Mcount.ForkChild UV.Mcount.Restore UV.Mcount.Method UV.Mcount.OverflowCyg UV.Mcount.ThreadExit.
+  UV.Mcount.Codec UV.Mcount.PlainMore UV.Mcount.Overflow UV.Mcount.Embed UV.Mcount.EmbedOver UV.Mcount.EmbedMore UV.Mcount.Check UV.Mcount.Monotone UV.Mcount.Threads UV.Mcount.ForkChild UV.Mcount.Restore UV.Mcount.Method UV.Mcount.OverflowCyg UV.Mcount.ThreadExit UV.Mcount.DepthField.
 Local Open Scope N_scope.
 
 (* Writer and readers agree on the record word: the hand-packed word of record_ret_stack decodes,
@@ -78,12 +78,57 @@ Theorem C02_reader_sees_record : forall r, r_depth r < 1024 -> r_addr r < 281474
 Proof. exact seen_exact. Qed.
 Print Assumptions C02_reader_sees_record.
 
-(* KNOWN FINDING: --max-stack accepts values up to 65535 but depth >= 1024 corrupts the record *)
+(* The depth field has 10 bits while --max-stack may be as large as 65535: packed as record_ret_stack packs it, a
+   record at depth >= 1024 would wrap its depth and spill into the address.  This was a genuine defect of the pinned
+   tree (such records were written); record_ret_stack now drops them (C02_beyond_depth_field_dropped below). *)
 Theorem C02_depth_overflow_refuted :
   exists r, r_depth r < OPT_RSTACK_MAX /\ r_addr r < 281474976710656 /\
             seen r <> (r_time r, type_code (r_type r), RECORD_MAGIC, r_depth r, r_addr r).
 Proof. exact depth_overflow_refuted. Qed.
 Print Assumptions C02_depth_overflow_refuted.
+
+(* Stacks deeper than the record format allows: for ANY -D gd and --max-stack ms (up to 65535 and beyond) and any
+   forest, what reaches the buffer ([storable]: record_ret_stack drops a frame whose depth does not fit the field)
+   is exactly the history of the calls nested less deep than min(gd, ms, 1024): a deeper call is dropped whole,
+   ENTRY and EXIT, with everything below it; and the readers decode each remaining record unchanged ([disk] =
+   the records as seen through the bit-field layout; addresses are 48-bit). *)
+Theorem C02_beyond_depth_field_dropped : forall gd ms f, all_timed f -> all_positive f ->
+  filter storable (out (fst (exec (plain 0 gd ms PG) (flat_forest f) (init, [])))) =
+  flat_map (recs 0 (N.min (N.min gd ms) 1024) 0) f.
+Proof. exact deep_calls_dropped. Qed.
+Print Assumptions C02_beyond_depth_field_dropped.
+
+Theorem C02_beyond_depth_field_dropped_cyg : forall gd ms f, ms <= gd -> all_timed f -> all_positive f ->
+  filter storable (out (fst (exec (plain 0 gd ms CYG) (flat_forest f) (init, [])))) =
+  flat_map (recs 0 (N.min ms 1024) 0) f.
+Proof. exact deep_calls_dropped_cyg. Qed.
+Print Assumptions C02_beyond_depth_field_dropped_cyg.
+
+Theorem C02_beyond_depth_field_on_disk : forall gd ms f, all_timed f -> all_positive f ->
+  Forall (fun r => r_addr r < 281474976710656) (out (fst (exec (plain 0 gd ms PG) (flat_forest f) (init, [])))) ->
+  disk (out (fst (exec (plain 0 gd ms PG) (flat_forest f) (init, [])))) =
+  map ideal (flat_map (recs 0 (N.min (N.min gd ms) 1024) 0) f).
+Proof. exact deep_calls_on_disk. Qed.
+Print Assumptions C02_beyond_depth_field_on_disk.
+
+(* whatever the records are: every storable one is read back unchanged, none below the limit is dropped *)
+Theorem C02_disk_exact : forall l, Forall (fun r => r_addr r < 281474976710656) l ->
+  disk l = map ideal (filter storable l).
+Proof. exact disk_exact. Qed.
+Print Assumptions C02_disk_exact.
+
+Theorem C02_nothing_dropped_below_the_limit : forall l, Forall (fun r => r_depth r < 1024) l -> filter storable l = l.
+Proof. exact disk_all. Qed.
+Print Assumptions C02_nothing_dropped_below_the_limit.
+
+(* non-vacuity: a chain 1026 deep under --max-stack=2000: 2052 records, 2048 stay *)
+Theorem C02_beyond_depth_field_example :
+  let f := chain 1026 1 5000 in
+  length (flat_map (recs 0 (N.min 2000 2000) 0) f) = 2052%nat /\
+  length (filter storable (flat_map (recs 0 (N.min 2000 2000) 0) f)) = 2048%nat /\
+  length (flat_map (recs 0 (N.min (N.min 2000 2000) 1024) 0) f) = 2048%nat.
+Proof. exact deep_example. Qed.
+Print Assumptions C02_beyond_depth_field_example.
 
 (* Filtered recordings: for EVERY option set without a trace_on/trace_off trigger (any -F/-N/-C/-D/-t/-Z and
    depth=/time=/size=/trace triggers, both instrumentation shapes) the stream written for a complete call
@@ -195,3 +240,12 @@ Theorem C02_pthread_exit_example :
      {| r_time := 140; r_type := ENTRY; r_depth := 2; r_addr := 768 |}].
 Proof. exact thread_exit_example. Qed.
 Print Assumptions C02_pthread_exit_example.
+
+(* KNOWN FINDING (zero-duration-dropped): the positivity hypothesis [all_positive] of the history theorems is necessary:
+   a call whose entry and exit hooks read the same clock value, with no recorded callee, is not recorded at all
+   although no -t option is given (mcount_exit_filter_record: end - start > threshold, strict). *)
+Theorem C02_zero_duration_refuted :
+  exists f, all_timed f /\ heights f <= 1024 /\
+            out (fst (exec (plain 0 1024 1024 PG) (flat_forest f) (init, []))) <> flat_map (history 0) f.
+Proof. exact zero_duration_refuted. Qed.
+Print Assumptions C02_zero_duration_refuted.
